@@ -447,6 +447,7 @@ func (e *Engine) verifyFunction(key string, ct *Contract) (res *FuncResult) {
 		f.env[p] = s
 		vc.topVars[p.Name()] = tv{s, p.Type()}
 		if i == 0 && fn.Signature.Recv() != nil {
+			vc.topVars["self"] = tv{s, p.Type()}
 			if r, ok := s.(sv); ok {
 				if _, _, isPS := isPtrToStruct(p.Type()); isPS {
 					vc.emit(fmt.Sprintf("(assert (not (= %s 0)))", r.t))
@@ -536,6 +537,32 @@ func (e *Engine) verifyFunction(key string, ct *Contract) (res *FuncResult) {
 	res.Opaque = vc.opaqueCalls
 	res.Lines = len(vc.lines)
 	return
+}
+
+// vacuityQuery drops every quantified assertion so that the solver can answer sat quickly;
+// contradictions among the quantifier-free hypotheses (requires, invariants, type facts) are still found.
+func (o *Obligation) vacuityQuery() string {
+	var sb strings.Builder
+	pre := preludeAbs
+	if o.vc.fpMode {
+		pre = preludeFP
+	}
+	for _, l := range strings.Split(pre+smtPrelude, "\n") {
+		if strings.Contains(l, "(forall") {
+			continue
+		}
+		sb.WriteString(l)
+		sb.WriteByte('\n')
+	}
+	for _, l := range o.vc.lines[:o.Prefix] {
+		if strings.Contains(l, "(forall") || strings.Contains(l, "(exists") {
+			continue
+		}
+		sb.WriteString(l)
+		sb.WriteByte('\n')
+	}
+	sb.WriteString(fmt.Sprintf("(assert (not %s))\n(check-sat)\n", o.Goal))
+	return sb.String()
 }
 
 func (o *Obligation) query() string {
